@@ -693,6 +693,171 @@ theorem C11_get_triggers_nested_counterexample : ¬ C11_get_triggers_nested := b
   revert this
   decide +kernel
 
+/-! ### hierarchical machines: `get_transitions` -/
+
+/-- every transition of the machine with the scope it is declared in -/
+def allT (h : HT) : List FoundT :=
+  h.tables.flatMap fun sc => sc.2.flatMap fun ev => ev.2.map fun t =>
+    ({ scope := sc.1, event := ev.1, source := t.1, dest := t.2 } : FoundT)
+
+/-- full strength (FALSE on the pinned tree, `C11_get_transitions_nested_counterexample`): everything
+`get_transitions(trigger, source, dest)` returns matches the selectors by its global names -/
+def C11_get_transitions_nested : Prop :=
+  ∀ (h : HT) (trigger : Option Name) (src dst : Path) (f : FoundT),
+    f ∈ getTransitionsH h trigger src dst → f.matchesH trigger src dst = true
+
+/-- no transition is declared in the scope of a nested state (the exclusion of finding
+F-C11-nested-get-transitions-local) -/
+def HT.NoLocal (h : HT) : Prop := ∀ pre, pre ≠ [] → h.table pre = []
+
+theorem flatT_nil (h : HT) (pre : Path) (trigger : Option Name) (src dst : Path) (ht : h.table pre = []) :
+    flatT h pre trigger src dst = [] := by
+  unfold flatT
+  rw [ht]
+  cases trigger <;> simp [kget]
+
+theorem nestedT_nil (h : HT) (hl : h.NoLocal) : ∀ (n : Nat) (pre : Path) (trigger : Option Name) (src dst : Path),
+    pre ≠ [] → nestedT h n pre trigger src dst = []
+  | 0, _, _, _, _, _ => rfl
+  | n + 1, pre, trigger, src, dst, hp => by
+    have hf := fun s d => flatT_nil h pre trigger s d (hl pre hp)
+    have ih := fun x s d => nestedT_nil h hl n (pre ++ [x]) trigger s d (by simp)
+    unfold nestedT
+    cases src with
+    | nil =>
+      cases dst with
+      | nil => simp [hf, ih]
+      | cons d0 dr => simp only [hf, List.nil_append]; split <;> simp [ih]
+    | cons s0 sr =>
+      cases dst with
+      | nil => simp only [hf, List.nil_append]; split <;> simp [ih]
+      | cons d0 dr => simp only [hf, List.nil_append]; split <;> simp [ih]
+
+/-- **C11, nested get_transitions is exact when all transitions are declared in the root scope**
+(outside finding F-C11-nested-get-transitions-local): the result is the root table filtered by the
+selectors (`flatT`, the flat `Machine.get_transitions` of `C11_get_transitions_exact`), and everything
+in it matches the selectors by its global names. -/
+theorem C11_get_transitions_nested_partial (h : HT) (hl : h.NoLocal) (trigger : Option Name) (src dst : Path) :
+    getTransitionsH h trigger src dst = flatT h [] trigger src dst ∧
+    ∀ f ∈ getTransitionsH h trigger src dst, f.matchesH trigger src dst = true := by
+  have h1 : getTransitionsH h trigger src dst = flatT h [] trigger src dst := by
+    unfold getTransitionsH nestedT
+    have ih : ∀ (x : Name) (s d : Path), nestedT h h.states.length [x] trigger s d = [] :=
+      fun x s d => nestedT_nil h hl h.states.length [x] trigger s d (by simp)
+    cases src with
+    | nil =>
+      cases dst with
+      | nil => simp [ih]
+      | cons d0 dr => simp only; split <;> simp [ih]
+    | cons s0 sr =>
+      cases dst with
+      | nil => simp only; split <;> simp [ih]
+      | cons d0 dr => simp only; split <;> simp [ih]
+  refine ⟨h1, ?_⟩
+  rw [h1]
+  intro f hf
+  unfold flatT at hf
+  simp only [List.mem_filter, List.mem_flatMap, List.mem_map] at hf
+  obtain ⟨⟨ev, hev, t, _, rfl⟩, hm⟩ := hf
+  simp only [Bool.and_eq_true, Bool.or_eq_true, decide_eq_true_eq, beq_iff_eq] at hm
+  unfold FoundT.matchesH
+  simp only [List.nil_append, Bool.and_eq_true, Bool.or_eq_true, decide_eq_true_eq, beq_iff_eq]
+  refine ⟨⟨?_, hm.1⟩, ?_⟩
+  · cases trigger with
+    | none => rfl
+    | some e =>
+      simp only at hev ⊢
+      cases hk : kget e (h.table []) with
+      | none => simp [hk] at hev
+      | some ts => simp [hk] at hev; rw [hev]; simp
+  · rcases hm.2 with h2 | h2
+    · exact Or.inl h2
+    · right; rw [h2]; simp
+
+/-- the witness: top-level states `A`, `B` (65, 66) with children `1`, `2` (49, 50); `loc` (108 111 99)
+declared in the scope of `A` from `1` to `2` — i.e. `A_1 → A_2` — is returned for `dest='B_2'` -/
+def exHT : HT :=
+  { states := [[[65]], [[65], [49]], [[65], [50]], [[66]], [[66], [49]], [[66], [50]]],
+    tables := [([[65]], [([108, 111, 99], [([[49]], some [[50]])])])] }
+
+theorem C11_get_transitions_nested_counterexample : ¬ C11_get_transitions_nested := by
+  intro h
+  have := h exHT none [] [[66], [50]] { scope := [[65]], event := [108, 111, 99], source := [[49]], dest := some [[50]] }
+    (by decide +kernel)
+  revert this
+  decide +kernel
+
+/-! ### hierarchical machines with a custom separator: binding the FunctionWrapper helpers -/
+
+/-- the code binds a parent's wrapper before its children's entries -/
+def parentFirst (seen : List Name) : List WStep → Bool
+  | [] => true
+  | st :: r =>
+    (st.restEmpty || !st.isStep || seen.contains st.name) &&
+      parentFirst (if st.restEmpty then st.name :: seen else seen) r
+
+/-- full strength (FALSE on the pinned tree): binding the wrapper helpers of `add_model` never raises -/
+def C11_wrapper_binding : Prop :=
+  ∀ (override : Bool) (ns : List (Name × TopAttr)) (steps : List WStep), parentFirst [] steps = true →
+    wrapOutcome override ns steps = none
+
+def WGood (ns : List (Name × TopAttr)) (seen : List Name) : Prop :=
+  (∀ n, (kget n ns).getD .missing = .missing ∨ (kget n ns).getD .missing = .wrapper) ∧
+  ∀ n ∈ seen, kget n ns = some .wrapper
+
+theorem runWrap_ok : ∀ (steps : List WStep) (ns : List (Name × TopAttr)) (seen : List Name), WGood ns seen →
+    parentFirst seen steps = true → ∃ ns', runWrap false ns steps = .ok ns'
+  | [], ns, _, _, _ => ⟨ns, rfl⟩
+  | st :: r, ns, seen, hg, hp => by
+    unfold parentFirst at hp
+    simp only [Bool.and_eq_true, Bool.or_eq_true, Bool.not_eq_true'] at hp
+    unfold runWrap
+    have hstep : wrapStep false ((kget st.name ns).getD .missing) st = .ok .wrapper := by
+      rcases hg.1 st.name with h1 | h1
+      · rw [h1]
+        unfold wrapStep
+        rcases hp.1 with (h2 | h2) | h2
+        · simp [h2]
+        · simp [h2]
+        · have := hg.2 st.name (by simpa using h2)
+          rw [this] at h1; cases h1
+      · rw [h1]; rfl
+    rw [hstep]
+    refine runWrap_ok r _ _ ?_ hp.2
+    refine ⟨?_, ?_⟩
+    · intro n
+      by_cases hn : n = st.name
+      · subst hn; right; simp [kget_kset_self]
+      · rw [kget_kset_ne _ _ _ _ hn]; exact hg.1 n
+    · intro n hn
+      by_cases hns : n = st.name
+      · subst hns; exact kget_kset_self _ _ _
+      · rw [kget_kset_ne _ _ _ _ hns]
+        apply hg.2
+        split at hn
+        · rcases List.mem_cons.mp hn with h | h
+          · exact absurd h hns
+          · exact h
+        · exact hn
+
+/-- **C11, wrapper binding succeeds** outside finding F-C11-custom-separator-wrapper-clash: no
+`model_override`, and the model has no attribute of its own under a wrapper name. -/
+theorem C11_wrapper_binding_partial (ns : List (Name × TopAttr)) (steps : List WStep)
+    (hn : ∀ n, (kget n ns).getD .missing = .missing ∨ (kget n ns).getD .missing = .wrapper)
+    (hp : parentFirst [] steps = true) : wrapOutcome false ns steps = none := by
+  obtain ⟨ns', h⟩ := runWrap_ok steps ns [] ⟨hn, fun n h => by cases h⟩ hp
+  simp [wrapOutcome, h]
+
+/-- witnesses: a model with its own `is_A` (top-level state `A`); `model_override` with a nested state `A.1` -/
+theorem C11_wrapper_binding_counterexample : ¬ C11_wrapper_binding := by
+  intro h
+  have h1 := h false [([105, 115, 95, 65], .user)] [{ name := [105, 115, 95, 65], isStep := true, restEmpty := true }] (by decide)
+  revert h1
+  decide
+
+example : wrapOutcome true [] [{ name := [105, 115, 95, 65], isStep := true, restEmpty := true },
+    { name := [105, 115, 95, 65], isStep := true, restEmpty := false }] = some .assertionError := by decide
+
 /-! ### the flat engine with callbacks: the state attribute stays registered (C04) -/
 
 /-- **C11 on the engine of C01/C04** (`Model/Core.lean`, callbacks of every kind, any of them raising
